@@ -7,7 +7,6 @@ import (
 	"encoding/binary"
 	"fmt"
 	"io"
-	"sort"
 	"sync"
 	"testing"
 
@@ -334,15 +333,10 @@ func idSet(rc *RunCtx, kind, n int) []uint64 {
 			seen[v] = true
 			ids[i] = v
 		}
-	case 2: // near 2^64
+	case 2: // near 2^64, incl. 2^64-1 itself
+		stride := uint64(1 + rc.Ch.Pick(3, 0))
 		for i := range ids {
-			ids[i] = ^uint64(0) - uint64(i)*uint64(1+rc.Ch.Pick(3, 0))
-		}
-		sort.Slice(ids, func(a, b int) bool { return ids[a] < ids[b] })
-		for i := 1; i < len(ids); i++ {
-			if ids[i] == ids[i-1] {
-				ids[i-1] -= uint64(len(ids) + i)
-			}
+			ids[len(ids)-1-i] = ^uint64(0) - uint64(i)*stride
 		}
 	default: // sparse small
 		v := uint64(0)
